@@ -12,6 +12,7 @@ use std::fs;
 
 mod hmap;
 mod inflight;
+mod locator;
 mod orphan;
 mod skip;
 
@@ -49,7 +50,7 @@ const GROUPS: [(&str, &str, &str); 6] = [
     ("loc", "loc_case", "check_loc"),
 ];
 /// groups (in the order above) whose model exists
-pub const ACTIVE_GROUPS: usize = 5;
+pub const ACTIVE_GROUPS: usize = 6;
 const HEADERS: [&str; 6] = [
     "From CKB Require Import Structs.AList Structs.Orphan.",
     "From CKB Require Import Structs.AList Structs.Orphan Structs.Skip.",
@@ -87,6 +88,8 @@ fn replay(path: &str) -> ! {
     let case = if let Some(vs) = v.get("violations") { vs[0]["detail"]["case"].clone() } else { v["cases"][0]["case"].clone() };
     let mut viol: Vec<Violation> = Vec::new();
     let st = case["structure"].as_str().unwrap_or("");
+    let scratch = scratch_dir("C17");
+    std::env::set_var("TMPDIR", &scratch);
     println!("replaying a {} case: {}", st, case);
     match st {
         "orphan" => orphan::replay(&case, &mut viol),
@@ -95,6 +98,7 @@ fn replay(path: &str) -> ! {
         "skip_height" | "ancestor" | "locator" => skip::replay(&case, &mut viol),
         _ => println!("unknown structure"),
     }
+    let _ = fs::remove_dir_all(&scratch);
     for x in &viol {
         println!("PROPERTY VIOLATED: {} :: {}", x.what, x.detail);
     }
@@ -137,6 +141,9 @@ fn main() {
         descs: (0..shards).map(|_| BTreeMap::new()).collect(),
         next_shard: 0,
     };
+    // every temporary directory (sled backend of the header map, temp chain db) goes below /verif/work
+    let scratch = scratch_dir("C17");
+    std::env::set_var("TMPDIR", &scratch);
     let only = std::env::var("HX_ONLY").unwrap_or_default();
     let want = |s: &str| only.is_empty() || only.split(',').any(|x| x == s);
     let t0 = std::time::Instant::now();
@@ -158,7 +165,9 @@ fn main() {
     part!("skip", skip::run);
     part!("inflight", inflight::run);
     part!("hmap", hmap::run);
+    part!("locator", locator::run);
 
+    let _ = fs::remove_dir_all(&scratch);
     for (i, cf) in cx.files.iter().enumerate() {
         cf.write().unwrap();
         fs::write(out.join(format!("cases_{:02}.json", i)), serde_json::to_string(&cx.descs[i]).unwrap()).unwrap();
